@@ -16,6 +16,7 @@ from aws_durable_execution_sdk_python.exceptions import (
 )
 from aws_durable_execution_sdk_python.lambda_service import (
     ErrorObject,
+    OperationStatus,
     OperationUpdate,
 )
 from aws_durable_execution_sdk_python.logger import Logger, LogInfo
@@ -152,8 +153,14 @@ class StepOperationExecutor(OperationExecutor[T]):
         ):
             return CheckResult.create_is_ready_to_execute(checkpointed_result)
 
-        # Create START checkpoint if not exists
-        if not checkpointed_result.is_existent():
+        # Create START checkpoint if not exists. A retry attempt of an AT_MOST_ONCE_PER_RETRY step (status READY
+        # once its retry timer fired) needs its own START as well: the attempt must be durably recorded as started
+        # before the function runs, otherwise an interruption inside it would re-run the same attempt on replay.
+        is_ready_at_most_once_retry: bool = (
+            checkpointed_result.status is OperationStatus.READY
+            and self.config.step_semantics is StepSemantics.AT_MOST_ONCE_PER_RETRY
+        )
+        if not checkpointed_result.is_existent() or is_ready_at_most_once_retry:
             start_operation: OperationUpdate = OperationUpdate.create_step_start(
                 identifier=self.operation_identifier,
             )
